@@ -1,6 +1,7 @@
 use crate::beatree::Key;
 use core::ops::Range;
 use crossbeam_channel::{Receiver, Sender, TryRecvError};
+use std::collections::btree_map::Entry;
 
 use super::{ChangedNodeEntry, NodesTracker};
 
@@ -197,7 +198,26 @@ pub fn request_range_extension<Node>(
         }
     }
 
-    nodes_tracker.inner.extend(response.changed);
+    for (key, entry) in response.changed {
+        match nodes_tracker.inner.entry(key) {
+            Entry::Vacant(vacant) => {
+                vacant.insert(entry);
+            }
+            Entry::Occupied(mut occupied) => {
+                // A node created by this worker, out of a node previously received from the
+                // right worker, ended up with the same separator of a node deleted by the
+                // right worker. The created node must be kept, it replaces the deleted one.
+                let existing = occupied.get_mut();
+                if existing.deleted.is_none() {
+                    existing.deleted = entry.deleted;
+                }
+                if existing.inserted.is_none() {
+                    existing.inserted = entry.inserted;
+                    existing.next_separator = entry.next_separator;
+                }
+            }
+        }
+    }
 
     if let Some(new_right_neighbor) = response.new_right_neighbor {
         worker_params.right_neighbor = new_right_neighbor;
